@@ -49,6 +49,7 @@ func execCase(t *testing.T, rc *RunCase, rngForGen func() chooser, keep bool, de
 		rr.sigs = out.Sigs
 		if leak != "" {
 			rr.Violations = append(rr.Violations, harnessViolation("bubble-end", leak))
+			rr.abandoned = true
 		}
 	case rc.C14 != nil:
 		cs := buildC14Scenario(rc.C14, rc.C14Real)
@@ -93,6 +94,7 @@ func execCase(t *testing.T, rc *RunCase, rngForGen func() chooser, keep bool, de
 		rr.nontrivial = len(obs) > 0
 		if leak != "" {
 			rr.Violations = append(rr.Violations, Violation{Property: "C13", Kind: "goroutine-leak", Detail: leak})
+			rr.abandoned = true
 		}
 	case rc.UCI != nil && rc.UCITwins > 0:
 		var a *UCIOutcome
@@ -147,6 +149,7 @@ func execCase(t *testing.T, rc *RunCase, rngForGen func() chooser, keep bool, de
 		}
 		if leak != "" {
 			rr.Violations = append(rr.Violations, Violation{Property: "C13", Kind: "goroutine-leak", Detail: "end of bubble: " + leak})
+			rr.abandoned = true
 		}
 	case rc.UCI != nil:
 		var out *UCIOutcome
@@ -171,6 +174,7 @@ func execCase(t *testing.T, rc *RunCase, rngForGen func() chooser, keep bool, de
 		}
 		if leak != "" {
 			rr.Violations = append(rr.Violations, Violation{Property: "C13", Kind: "goroutine-leak", Detail: "end of bubble: " + leak})
+			rr.abandoned = true
 		}
 	}
 	return rr
@@ -336,7 +340,7 @@ func TestWorker(t *testing.T) {
 	nontrivial := map[uint64]struct{}{}
 	all := map[uint64]struct{}{}
 	thorough := job.Tier == "thorough"
-	for k := 0; ; k++ {
+	for k := job.SkipK; ; k++ {
 		if job.MaxRuns > 0 && k >= job.MaxRuns {
 			break
 		}
@@ -402,6 +406,12 @@ func TestWorker(t *testing.T) {
 		}
 		if k%64 == 0 {
 			runtime.GC()
+		}
+		if rr.abandoned {
+			// goroutines of the driver under test are still blocked in the bubble
+			// that just ended: do not run further bubbles in this process
+			sum.Restart, sum.NextK = true, k+1
+			break
 		}
 	}
 	sum.WallS = time.Since(start).Seconds()
